@@ -1741,7 +1741,7 @@ impl TreeProp {
                 plans.push(ExploreCfg {
                     focus: f, depth: d, ops,
                     backends: vec![(Kind::Full, 4), (Kind::Optimal, 4), (Kind::Pm, if q { 1 } else { 2 })],
-                    nodedup_len: 1, max_len: if q && d == 5 && f == Focus::C07 { 3 } else { 4 }, positions: all(d), full_obs: true, allow: None, dense_after: None, label: format!("depth{d}.rewrite"),
+                    nodedup_len: 1, max_len: if q && d == 5 && f != Focus::C06 { 3 } else { 4 }, positions: all(d), full_obs: true, allow: None, dense_after: None, label: format!("depth{d}.rewrite"),
                 });
             }
         }
@@ -1772,11 +1772,13 @@ impl TreeProp {
                 ops.push(TreeOp::Batch(0, (0..130).map(|k| if k % 2 == 0 { 1 } else { 2 }).collect(), vec![]));
             }
             ops.extend_from_slice(&extra);
+            if !(q && f == Focus::C07) {
             plans.push(ExploreCfg {
                 focus: f, depth: 10, ops,
                 backends: vec![(Kind::Full, 3), (Kind::Optimal, 3), (Kind::Pm, 2), (Kind::Rln, if q { 1 } else { 2 })],
                 nodedup_len: 1, max_len: if q { 2 } else { 3 }, positions: pos, full_obs: false, allow: None, dense_after: None, label: "depth10.boundaries".into(),
             });
+            }
         }
         // depth 7: removal lists whose members are far apart (several subtrees away from each other), some of them
         // at or beyond the leaf count; depth 5: removal lists and range writes that are long runs of consecutive
@@ -1796,7 +1798,7 @@ impl TreeProp {
             }
             // depth 14: removal lists whose members are thousands of positions apart (trait level only: the byte-level API
             // and the FFI take removal indices as single bytes), all of them set / some of them unset or beyond the leaf count
-            {
+            if !q || f == Focus::C08 {
                 let d = 14usize;
                 let mut ops = vec![TreeOp::Set(3, 1), TreeOp::Set(5000, 2), TreeOp::Set(12_000, 1), TreeOp::Delete(3)];
                 for r in [vec![3u64, 5000], vec![3, 12_000], vec![5000, 12_000], vec![3, 5000, 12_000], vec![12_000, 3], vec![3, 9000], vec![5000, 16_383]] {
@@ -1820,21 +1822,23 @@ impl TreeProp {
                 ops.push(TreeOp::Range(0, pat(16)));
                 ops.push(TreeOp::Range(3, pat(17)));
             }
+            if !(q && f == Focus::C07) {
             plans.push(ExploreCfg {
                 focus: f, depth: 5, ops,
                 backends: vec![(Kind::Full, 3), (Kind::Optimal, 3), (Kind::Pm, if q { 2 } else { 3 }), (Kind::Rln, 2)],
                 nodedup_len: 1, max_len: 3, positions: all(5), full_obs: true, allow: None, dense_after: None, label: "depth5.long-runs".into(),
             });
+            }
         }
         // depth 16: ONE long operation per history (a range write, batch write or removal run of 2^k + 1 positions,
         // k up to 15: block sizes at which an implementation may switch strategy), before it one short operation that
         // puts the leaf count above or below the range, after it one short operation; sparse observation around
         // both ends of the range for leaves and proofs; thorough tier: after the long operation EVERY node of the tree (all levels) is compared
-        if f != Focus::C07 || !q {
+        if !q || matches!(f, Focus::C06 | Focus::C08) {
             let d = 16usize;
             let c = 1u64 << d;
             let pat = |n: u64| -> Vec<u8> { (0..n).map(|k| if k % 2 == 0 { 1 } else { 2 }).collect() };
-            let lens: Vec<u64> = if q { vec![17, 255, 256, 257, 4097, 16385] } else { (4..=15).flat_map(|k| [(1u64 << k) - 1, 1u64 << k, (1u64 << k) + 1]).chain([c]).collect() };
+            let lens: Vec<u64> = if q && f == Focus::C08 { vec![17, 256, 4097, 16385] } else if q { vec![17, 255, 256, 257, 4097, 16385] } else { (4..=15).flat_map(|k| [(1u64 << k) - 1, 1u64 << k, (1u64 << k) + 1]).chain([c]).collect() };
             let mut ops = vec![TreeOp::Set(40000, 1), TreeOp::Append(2)];
             if with_plain {
                 ops.push(TreeOp::Range(0, pat(8)));
